@@ -57,6 +57,12 @@ type lfsServer struct {
 	slowGet    func(w http.ResponseWriter, r *http.Request, b []byte) // serves a storage GET outside the server lock (C02 concurrency)
 	hdrStyle   int  // how the server spells the header NAMES of the actions it offers: 0 canonical, 1 lower, 2 upper, 3 mixed
 	offerExtra bool // offered actions also carry Authorization (and, for uploads, Content-Type)
+	transferPlan []string          // C18: `transfer` of the i-th answer to an UPLOAD batch ("tus" only when the client advertised it; "" = member left out = basic; the last entry repeats)
+	uploadAnswers int
+	answerLog    []string          // `transfer` of the answers to upload batches since the harness last cleared it ("-" = member left out)
+	offeredHist  map[string]string // oid -> answerLog, comma-joined, up to and including the answer that offered its upload action
+	availTus     bool
+	offeredAs    map[string]string // oid -> the transfer the latest batch response offering its upload action named
 }
 
 // actHeader is the header set of an offered action. HTTP header names are case-insensitive, so the
@@ -106,6 +112,17 @@ func (s *lfsServer) capture(r *http.Request, body []byte, kind string) {
 		b = fmt.Sprintf("<%d bytes sha256:%s>", len(body), sha(body))
 	}
 	s.reqs = append(s.reqs, capturedReq{Method: r.Method, Path: r.URL.Path, Query: r.URL.RawQuery, Header: h, Body: b, Kind: kind})
+}
+
+func (s *lfsServer) noteHist(oid string) {
+	if h, ok := s.offeredHist[oid]; ok && h != "" {
+		rq := &s.reqs[len(s.reqs)-1]
+		rq.Header["~answers"] = h
+		rq.Header["~avail"] = "basic"
+		if s.availTus {
+			rq.Header["~avail"] = "basic,tus"
+		}
+	}
 }
 
 func (s *lfsServer) handle(w http.ResponseWriter, r *http.Request) {
@@ -201,9 +218,32 @@ func (s *lfsServer) handle(w http.ResponseWriter, r *http.Request) {
 			Error   *oerr          `json:"error,omitempty"`
 		}
 		out := struct {
-			Transfer string `json:"transfer"`
+			Transfer string `json:"transfer,omitempty"`
 			Objects  []obj  `json:"objects"`
 		}{Transfer: "basic", Objects: []obj{}}
+		if len(s.transferPlan) > 0 && req.Operation == "upload" {
+			i := s.uploadAnswers
+			if i >= len(s.transferPlan) {
+				i = len(s.transferPlan) - 1
+			}
+			s.uploadAnswers++
+			out.Transfer = s.transferPlan[i]
+			adv := false
+			for _, t := range req.Transfers {
+				if t == "tus" {
+					adv = true
+				}
+			}
+			s.availTus = adv
+			if out.Transfer == "tus" && !adv {
+				out.Transfer = "basic"
+			}
+			if out.Transfer == "" {
+				s.answerLog = append(s.answerLog, "-")
+			} else {
+				s.answerLog = append(s.answerLog, out.Transfer)
+			}
+		}
 		if s.pickAdvertised {
 			for _, t := range req.Transfers {
 				if t != "basic" && t != "ssh" && t != "tus" && t != "lfs-standalone-file" {
@@ -223,6 +263,16 @@ func (s *lfsServer) handle(w http.ResponseWriter, r *http.Request) {
 						ob.Actions["verify"] = act{Href: s.srv.URL + "/verify", Header: s.actHeader("verify", o.Oid)}
 					}
 					s.lastUploadAction[o.Oid] = "upload-" + o.Oid[:8]
+					if s.offeredAs == nil {
+						s.offeredAs = map[string]string{}
+					}
+					s.offeredAs[o.Oid] = out.Transfer
+					if len(s.transferPlan) > 0 {
+						if s.offeredHist == nil {
+							s.offeredHist = map[string]string{}
+						}
+						s.offeredHist[o.Oid] = strings.Join(s.answerLog, ",")
+					}
 				}
 			} else {
 				if have {
@@ -236,8 +286,35 @@ func (s *lfsServer) handle(w http.ResponseWriter, r *http.Request) {
 		jsonOut(200, out)
 	case strings.HasPrefix(p, "/storage/"):
 		oid := strings.TrimPrefix(p, "/storage/")
+		if (r.Method == "HEAD" || r.Method == "PATCH") && len(s.transferPlan) > 0 {
+			// the tus.io core protocol as tq/tus_upload.go speaks it: HEAD -> Upload-Offset, PATCH -> the bytes
+			s.capture(r, body, "storage-tus")
+			s.reqs[len(s.reqs)-1].Header["~offered-as"] = s.offeredAs[oid]
+			s.reqs[len(s.reqs)-1].Header["~tus-resumable"] = r.Header.Get("Tus-Resumable")
+			s.noteHist(oid)
+			if s.offeredAs[oid] != "tus" {
+				w.WriteHeader(405) // a basic store knows neither method
+				return
+			}
+			w.Header().Set("Tus-Resumable", "1.0.0")
+			if r.Method == "HEAD" {
+				w.Header().Set("Upload-Offset", "0")
+				w.WriteHeader(200)
+				return
+			}
+			if len(oid) == 64 && sha(body) != oid {
+				w.WriteHeader(422)
+				return
+			}
+			s.objs[oid] = body
+			w.Header().Set("Upload-Offset", fmt.Sprint(len(body)))
+			w.WriteHeader(204)
+			return
+		}
 		if r.Method == "PUT" {
 			s.capture(r, body, "storage-put")
+			s.reqs[len(s.reqs)-1].Header["~offered-as"] = s.offeredAs[oid]
+			s.noteHist(oid)
 			if st, ok := s.putFail[oid]; ok {
 				w.WriteHeader(st)
 				return
